@@ -138,6 +138,11 @@ class FuncFrames:
                     for tt in ([t] if not isinstance(t, (ast.Tuple, ast.List)) else t.elts):
                         if isinstance(tt, (ast.Subscript, ast.Attribute)):
                             self._site(n, tt)
+                # `x += [...]` / `x |= {...}` / `x += list(...)`: an in-place update of whatever
+                # object x names (list.__iadd__ extends in place), not a re-binding
+                if isinstance(n, ast.AugAssign) and isinstance(n.target, ast.Name) and \
+                        (is_alloc(n.value) or isinstance(n.value, (ast.Tuple,)) and False):
+                    self._site(n, n.target)
             elif isinstance(n, ast.Delete):
                 for t in n.targets:
                     if isinstance(t, (ast.Subscript, ast.Attribute)):
